@@ -110,7 +110,7 @@ func (df *DataFrame) ToCSVWriter(writer io.Writer) error {
 
 	// Write header
 	header := df.ColumnNames()
-	if err := csvWriter.Write(header); err != nil {
+	if err := writeCSVRecord(csvWriter, writer, header); err != nil {
 		return fmt.Errorf("error writing header: %w", err)
 	}
 
@@ -124,10 +124,26 @@ func (df *DataFrame) ToCSVWriter(writer io.Writer) error {
 			}
 			row[idx] = fmt.Sprintf("%v", value)
 		}
-		if err := csvWriter.Write(row); err != nil {
+		if err := writeCSVRecord(csvWriter, writer, row); err != nil {
 			return fmt.Errorf("error writing row: %w", err)
 		}
 	}
 
 	return nil
+}
+
+// writeCSVRecord writes one record. encoding/csv writes a record consisting of a single
+// empty field as an empty line, which every CSV reader (including FromCSVReader) skips,
+// so the row would be lost on the way back; such a record is written as a quoted empty
+// field instead.
+func writeCSVRecord(csvWriter *csv.Writer, writer io.Writer, record []string) error {
+	if len(record) == 1 && record[0] == "" {
+		csvWriter.Flush()
+		if err := csvWriter.Error(); err != nil {
+			return err
+		}
+		_, err := io.WriteString(writer, "\"\"\n")
+		return err
+	}
+	return csvWriter.Write(record)
 }
